@@ -361,6 +361,13 @@ std::string World::make_signature(const std::string &hash, uint64_t level, uint6
 		meta.cal_root = cc.fold();
 		if (with_auth_record) sig.add(auth_record(*this, p, meta.cal_root));
 	}
+	if (sig_extra_len >= 0) {
+		std::string fill((size_t)sig_extra_len, '\0');
+		for (size_t i = 0; i < fill.size(); i++) fill[i] = (char)(0x30 + (i * 11 + subseed) % 64);
+		Tlv x = Tlv::raw(0x1d, fill);
+		x.nc = true; x.fwd = true;
+		sig.add(x);
+	}
 	return sig.enc();
 }
 
